@@ -243,14 +243,26 @@ class SStr(object):
     def split(self, sep=None, maxsplit=-1):
         out = []
         if sep is None:
+            # CPython: runs of white space separate; after maxsplit splits the rest of the string is kept as it is,
+            # minus its leading white space only
             cur = []
-            for c in self.items:
+            items = self.items
+            i, n = 0, len(items)
+            while i < n:
+                if maxsplit >= 0 and len(out) >= maxsplit and not cur:
+                    while i < n and SStr.is_space(items[i]):
+                        i += 1
+                    if i < n:
+                        out.append(SStr.mk(items[i:], self.is_bytes))
+                    return out
+                c = items[i]
                 if SStr.is_space(c):
                     if cur:
                         out.append(SStr.mk(cur, self.is_bytes))
                         cur = []
                 else:
                     cur.append(c)
+                i += 1
             if cur:
                 out.append(SStr.mk(cur, self.is_bytes))
             return out
